@@ -12,7 +12,7 @@ Report(c, ok, detail) ==
 ToSet(s) == { s[i] : i \in 1..Len(s) }
 St(t) == [streams |-> ToSet(t.state.streams), files |-> ToSet(t.state.files), blobs |-> ToSet(t.state.blobs),
           keys |-> ToSet(t.state.keys), links |-> ToSet(t.state.links), mps |-> ToSet(t.state.mps),
-          periods |-> ToSet(t.state.periods), adps |-> ToSet(t.state.adps)]
+          periods |-> ToSet(t.state.periods), adps |-> ToSet(t.state.adps), errors |-> ToSet(t.state.errors)]
 Check(t) ==
     LET b == St(t) IN
     /\ Report("C17_FileHasStreamAndBlob", C17_FileHasStreamAndBlob(b), t.op)
@@ -24,6 +24,9 @@ Check(t) ==
     /\ \A i \in 1..Len(t.serve) :
          Report("C17_ListedServesOr4xx", t.serve[i].status < 500, t.serve[i])
     /\ Report("C17_UploadedServedBack", t.back_ok # 0, t.op)
+    /\ (l > 1 /\ TraceLog[l - 1].tid = t.tid) =>
+         Report("C17_DeleteRemovesExactlyOwned", C17_DeleteDoesNotCrash(St(TraceLog[l - 1]), t.op, t.pk, t.status),
+                [op |-> t.op, status |-> t.status, kind |-> "deletion of an existing object answered 5xx"])
     /\ (l > 1 /\ TraceLog[l - 1].tid = t.tid /\ t.applied = 1) =>
          LET a == St(TraceLog[l - 1]) IN
          /\ (t.op = "delete_stream" => Report("C17_DeleteRemovesExactlyOwned", C17_DeleteStreamExact(a, b, t.pk), t.op))
